@@ -1,4 +1,4 @@
-HOOK_COMMITS = ["90d925a", "8940632", "5dcbe49", "0243fbe", "56c02d7", "1d7d127", "9681393", "301afe1", "c53dffa"]
+HOOK_COMMITS = ["90d925a", "8940632", "5dcbe49", "0243fbe", "56c02d7", "1d7d127", "9681393", "301afe1", "c53dffa", "67987dc", "2fe230a", "be4cb7c", "58c1ed1"]
 
 CHAIN_NOTE = ("Assumed: delegation.Loader.GetDelegation is a function of (loader, cid) during one check and returns a non-nil token when err == nil; "
               "time.Now() names one instant per check and After/Before compare abstract instants; fmt.Errorf returns non-nil; "
@@ -51,5 +51,22 @@ CLAIMED["C20"] = dict(
     note="Trusted: the frame => race-freedom meta-theorem; dependency calls on these paths (qp builders, printer.Sprint, DeepEqual, sort.Strings writes only its argument, slices.Clone returns fresh memory) write nothing reachable from their arguments; "
          "function values passed in by the caller (iterator yield, args hook) are effect-free. Not yet under contract: ToSealed*/Encode*/toIPLD, Policy.String/ToIPLD, Selector.Select/String, DID.*, Command.Join/Segments, container.Reader getters.",
     design="DESIGN.md §3 C20")
-for pid in ["C06","C07","C08","C09","C10","C11","C12","C14","C16","C17","C18","C19"]:
+CLAIMED["C06"] = dict(
+    text="Proof of a relational post-condition over uninterpreted dependency functions (a data-flow theorem about the real bodies): envelope.Inspect is verified (iterator loop invariants) "
+         "to accept only a signed part that is a map of exactly two entries, the varsig header 'h' and one 'ucan/...' tag, and to record exactly those; the generic FromIPLD[T] is verified inlined into "
+         "delegation.FromIPLD and invocation.FromIPLD: err == nil implies envelopeVerified(node, Tag) — the signature taken from node[0] verifies, under the key extracted from the DID parsed from the payload's iss entry, "
+         "over the DAG-CBOR encoding of the signed part node[1]; the announced header equals the varsig header of that key's type; the tag is the requested type's tag — and the returned token's issuer is that DID. "
+         "Decode/FromDagCbor/FromSealed and the generic token.fromIPLD/Decode/FromSealed are verified to return a token only through these decoders.",
+    note="Assumed (trusted, DESIGN.md §3 C06): unforgeability of the signature schemes (sigVerify is uninterpreted), DAG-CBOR encode/decode as functions of node/bytes, did.PubKey and varsig.Encode through trusted contracts (pubKeyOf, varsigOf), "
+         "bindnode: AssignNode/Build/Unwrap preserve the payload node, the unwrapped model's Iss field is the node's iss entry, required fields are set. 'No modification of the bytes yields a different accepted token' is decided modulo these assumptions.",
+    design="DESIGN.md §3 C06")
+CLAIMED["C10"] = dict(
+    text="Proof: validate (both token types) == the well-formedness predicate (defined issuer, the other required principal, nonce >= 12 bytes); constructors New/Root return exactly the object validate accepted "
+         "(options are arbitrary functions that may assign any token field); tokenFromModel (both) additionally establishes a valid command (command.Parse), time bounds within +/-(2^53-1) (OptionalTimestamp), "
+         "argument / policy integers in bounds (ValidateIntegerBoundsIPLD, verified recursively over the abstract node structure with iterator invariants and a termination measure; Args.Validate with a map-coverage invariant); "
+         "literal.Any stores every Go integer exactly or rejects it (fast path), Args.Add stores exactly Any(val), rejects duplicates and leaves the Args unchanged on error; decoders accept only the two-entry signed part under the requested tag (C06 contracts).",
+    note="Assumed: bindnode schema strictness (unknown, missing or wrongly typed payload fields are rejected by AssignNode against the embedded .ipldsch) — a dependency behaviour contracts cannot decide here; "
+         "the reflection-based slow path of literal.Any (anyAssemble) is abstracted; policy.FromIPLD is used through a trusted contract (its shape is C14).",
+    design="DESIGN.md §3 C10")
+for pid in ["C07","C08","C09","C11","C12","C14","C16","C17","C18","C19"]:
     NOT_APPLICABLE[pid] = "contracts for this property are not registered yet in this tree (work in progress; see DESIGN.md §6 staging)"
